@@ -157,7 +157,7 @@ func main() {
 					}
 				} else {
 					bad++
-					fmt.Printf("  %-9s %s\n", strings.ToUpper(o.Status), o.Name)
+					fmt.Printf("  %-9s %s  [%s]\n", strings.ToUpper(o.Status), o.Name, o.Where)
 					if *verbose || true {
 						fmt.Printf("            %s\n", firstLines(o.Output, 4))
 					}
